@@ -19,6 +19,8 @@ CASE_TIMEOUT = 400.0
 def cfg_hook(rng, cfg, fam, i):
     if i % 3 == 0:
         cfg["cache"] = int(rng.choice([2048, 4096, 8192, 16384, 65536]))
+    if fam == "buffer-stress" and i % 2:
+        cfg["acc"], cfg["mode"] = "ethos-u65-512", None  # two cores, weights streamed through SRAM buffers
 
 
 def gen_cases(tier, seed):
